@@ -380,8 +380,9 @@ func HashAccessFunction(name string) ZlispUserFunction {
 				keys = append(keys, (hash.KeyOrder)[i])
 
 				// try to get a .Typ value going too... from the first available.
+				// (the type of the array: a slice of the key's type)
 				if arr.Typ == nil {
-					arr.Typ = (hash.KeyOrder)[i].Type()
+					arr.Typ = GoStructRegistry.GetOrCreateSliceType((hash.KeyOrder)[i].Type())
 				}
 			}
 			arr.Val = keys
